@@ -12,7 +12,8 @@ LEVEL_TEXT = ("On the Lean mirror the two flavours are proved to run the same pr
 LEVEL_NOTE = ("Trusted: Lean kernel, standard axioms; the mirror (one Forest.lean for both flavours with a flavour switch). Only "
               "flavour-dependent differences count here: a defect present in both copies is reported by C01-C03/C16, not by C18. "
               "Non-node arguments are excluded (the property quantifies over tree-node arguments); LightNodeMixin has no 'anchestors' "
-              "typo alias.")
+              "typo alias."
+              " Histories with a hook that detaches another node while a call is in progress are run in lock-step on both flavours as well (outside the model: searched, not proved).")
 THEOREMS = [
     ("Anytree.Props.C18.setParent_flavor", "full"),
     ("Anytree.Props.C18.delChildren_flavor", "full"),
